@@ -29,12 +29,22 @@ class ScheduleError(RuntimeError):
     pass
 
 
-_TOKEN = re.compile(r"[0-9a-f]{32}|[0-9a-f]{8}-[0-9a-f]{4}-[0-9a-f]{4}-[0-9a-f]{4}-[0-9a-f]{12}")
+# content tokens (md5), uuids, and the truncated tokens of fused task names ("...-2534c9a9433--476")
+_TOKEN = re.compile(r"[0-9a-f]{8}-[0-9a-f]{4}-[0-9a-f]{4}-[0-9a-f]{4}-[0-9a-f]{12}|[0-9a-f]{7,}|(?<=--)[0-9a-f]{2,4}(?![0-9a-z])")
+
+
+_TAIL = re.compile(r"(?<=#-)-?[0-9a-f]{2,6}(?![0-9a-z])")
 
 
 def keyname(k):
-    """Task key with content tokens stripped (the finalize key carries a fresh uuid on every compute)."""
-    return _TOKEN.sub("#", str(k))
+    """Task key with content tokens stripped (the finalize key carries a fresh uuid on every compute; fused task
+    names end in truncated token fragments)."""
+    s = _TOKEN.sub("#", str(k))
+    prev = None
+    while prev != s:
+        prev = s
+        s = _TAIL.sub("#", s)
+    return s
 
 
 def _arrays_in(v, out, depth=0):
@@ -88,7 +98,7 @@ def canonical_priority(dsk, deps, order):
     import hashlib
     colour = {k: keyname(k) for k in dsk}
     pos = {k: i for i, k in enumerate(dsk)}
-    for _ in range(8):
+    for _ in range(64):          # until the partition is stable (long symmetric chains need many rounds)
         new = {}
         for k in dsk:
             h = hashlib.blake2b(digest_size=12)
@@ -241,7 +251,7 @@ def run_schedule(compute_fn, prefix=(), monitor="deps", state_fn=None):
     return res, s
 
 
-def explore_schedules(compute_fn, bound, monitor=None, max_execs=None, on_exec=None):
+def explore_schedules(compute_fn, bound, monitor=None, max_execs=None, on_exec=None, tolerate_divergence=False):
     """Stateless deviation-bounded exploration: every schedule with <= `bound` departures from the default
     ready-task choice.  Yields nothing; calls on_exec(choices, result, scheduler) for every execution.
     Returns dict(executions, capped, max_points, max_ready)."""
@@ -250,12 +260,22 @@ def explore_schedules(compute_fn, bound, monitor=None, max_execs=None, on_exec=N
     run_schedule(compute_fn, (), None)
     stack = [[]]
     n = 0
+    diverged = 0
     capped = False
     max_points = 0
     max_ready = 0
     while stack:
         prefix = stack.pop()
-        res, s = run_schedule(compute_fn, prefix, monitor)
+        try:
+            res, s = run_schedule(compute_fn, prefix, monitor)
+        except ScheduleError:
+            # Some graphs (dask.dataframe expressions over uuid-named delayed tasks) are fused differently on every
+            # build, so a recorded choice sequence may not fit the rebuilt graph.  Only where the caller says so this is
+            # counted instead of raised; every schedule that IS executed remains a valid schedule of the real graph.
+            if not tolerate_divergence:
+                raise
+            diverged += 1
+            continue
         n += 1
         max_points = max(max_points, len(s.points))
         max_ready = max(max_ready, s.max_ready)
@@ -272,7 +292,7 @@ def explore_schedules(compute_fn, bound, monitor=None, max_execs=None, on_exec=N
             nready = s.points[i][0]
             for alt in range(1, nready):
                 stack.append(ch[:i] + [alt])
-    return dict(executions=n, capped=capped, max_points=max_points, max_ready=max_ready)
+    return dict(executions=n, capped=capped, max_points=max_points, max_ready=max_ready, diverged=diverged)
 
 
 def count_one_deviation(points):
